@@ -16,6 +16,14 @@ void measure(NifFile& nif, bool def, const std::string& caseJson, const char* va
 	for (auto s : nif.GetShapes()) s->UpdateBounds();
 	JObj ev;
 	ev.add("e", "resave").raw("case", caseJson).add("opt", def ? "default" : "raw").add("variant", variant);
+	size_t stripParts = 0;
+	for (uint32_t b = 0; b < nif.GetHeader().GetNumBlocks(); b++)
+		if (auto sp = nif.GetHeader().GetBlock<NiSkinPartition>(b))
+			for (auto& p : sp->partitions) stripParts += p.numStrips ? 1 : 0;
+	ev.add("stripPartitions", stripParts > 0);
+	// a save before any query: the history save, queries, save must give the same file twice
+	std::string b0 = saveToString(nif, def, def);
+	ev.raw("S0", fileAbstract(b0, &nif, ids));
 	// some accessors convert cached data lazily (e.g. GetShapePartitions turns partition strips into triangles, which
 	// changes what IsSSECompatible answers): let that settle first, so that a difference can only come from saving
 	battery(nif, qids);
@@ -29,7 +37,7 @@ void measure(NifFile& nif, bool def, const std::string& caseJson, const char* va
 	std::string b3 = saveToString(nif, def, def);
 	ev.raw("S3", fileAbstract(b3, &nif, ids));
 	ev.raw("q3", battery(nif, qids));
-	ev.add("eq12raw", b1 == b2).add("eq23raw", b2 == b3);
+	ev.add("eq01raw", b0 == b1).add("eq12raw", b1 == b2).add("eq23raw", b2 == b3);
 	out += ev.done() + "\n";
 }
 
@@ -75,6 +83,43 @@ int cmdResave(int argc, char** argv) {
 				if (loadFromString(nif, bytes) != 0) return;
 				measure(nif, def != 0, caseOf(k), "fresh", out);
 			}
+			if (!cases[k].file.empty()) {
+				// the same model with every mapped skin-partition triangle rotated once (same triangle, same winding): files
+				// from other exporters do not keep the corner order this library writes
+				for (int def = 0; def < 2; def++) {
+					NifFile nif;
+					if (loadFromString(nif, bytes) != 0) return;
+					size_t rotated = 0;
+					for (uint32_t b = 0; b < nif.GetHeader().GetNumBlocks(); b++)
+						if (auto sp = nif.GetHeader().GetBlock<NiSkinPartition>(b))
+							for (auto& p : sp->partitions)
+								for (auto& t : p.triangles) {
+									t = Triangle(t.p2, t.p3, t.p1);
+									rotated++;
+								}
+					if (!rotated) break;
+					measure(nif, def != 0, caseOf(k), "rotated-partition-triangles", out);
+				}
+				// one block type relabelled so that the library holds its blocks as opaque ones
+				HeaderInfo h = parseHeader(bytes);
+				if (h.ok && h.hasSizes && !h.types.empty()) {
+					std::string ub = bytes;
+					const std::string& t = h.types[(seed + k) % h.types.size()];
+					std::string needle;
+					uint32_t n = (uint32_t) t.size();
+					needle.append((const char*) &n, 4);
+					needle += t;
+					size_t p = ub.find(needle);
+					if (p != std::string::npos && p < h.hdrLen) {
+						ub[p + 4] = (ub[p + 4] == 'Q') ? 'Z' : 'Q';
+						for (int def = 0; def < 2; def++) {
+							NifFile nif;
+							if (loadFromString(nif, ub) != 0 || !nif.HasUnknown()) break;
+							measure(nif, def != 0, caseOf(k), "one-type-unknown", out);
+						}
+					}
+				}
+			}
 			if (editSteps && !cases[k].file.empty()) {
 				for (int def = 0; def < 2; def++) {
 					NifFile nif;
@@ -97,5 +142,27 @@ int cmdResave(int argc, char** argv) {
 	printf("{\"cases\":%zu,\"crashes\":%zu}\n", cases.size(), crashes);
 	return 0;
 }
+// c02-one <type> <ver> <mode> | c02-one <sample file>: one case in-process (for replays and debugging)
+int cmdOne(int argc, char** argv) {
+	if (argc < 2) return 2;
+	std::string bytes;
+	uint64_t seed = seedFromEnv();
+	if (argc >= 4) {
+		NifFile gen;
+		if (!synthFile(gen, argv[1], argv[2], atoi(argv[3]), seed)) return 3;
+		bytes = saveToString(gen, false, false);
+	}
+	else
+		bytes = readFile(samplePath(argv[1]));
+	for (int def = 0; def < 2; def++) {
+		NifFile nif;
+		if (loadFromString(nif, bytes) != 0) return 4;
+		std::string out;
+		measure(nif, def != 0, "{}", "fresh", out);
+		printf("%zu bytes of record\n", out.size());
+	}
+	return 0;
+}
 Reg r1("c02-resave", cmdResave);
+Reg r2("c02-one", cmdOne);
 } // namespace
